@@ -13,7 +13,7 @@ ID = "C02"
 LEVEL = "exploration"
 RULE = ("stage 1 = gcc build of /repo; stage 2 = every source of cproc-qbe preprocessed with the flags of config.h, compiled by stage 1, the IL validated, "
         "translated by il2c and built with gcc -O1 (no sanitizer), linked as cproc-qbe. Inputs: cproc's own preprocessed sources (the bootstrap fixed point), "
-        "every test/*.c, Hypothesis programs of C01's generators, C10 catalogue instances (diagnostics), token-mutated corpus files, x 3 targets x {compile, -E}. "
+        "every test/*.c, Hypothesis programs of C01's generators, C04 constant-expression units (the folder of stage 2 runs cproc's own lowering of eval.c), C10 catalogue instances (diagnostics), token-mutated corpus files, x 3 targets x {compile, -E}. "
         "Oracle: byte-identical stdout, stderr and exit status of the two binaries run with identical argv/cwd/env. non-trivial = input on which stage 1 emits "
         ">= 1 definition or a diagnostic; distinct by hash of (stdout, stderr).")
 ASSUMPTIONS = ["stage 2 is produced through vlib/il2c.py + gcc instead of QBE (QBE is not installed): it checks cproc's lowering of its own source under il2c's reading of the IL semantics",
@@ -134,10 +134,21 @@ def own_enum(ctx):
     for f in ctx.data["corpus"]:
         from .c19 import _args_for
         yield {"file": os.path.relpath(f, build.REPO)}
+    # C04's operator x type x boundary-value table: stage 2 folds it with cproc's own lowering of eval.c
+    from . import c04
+    for u in c04.fold_units(ctx):
+        yield {"fold": u}
 
 
 def own_check(case, ctx):
     res = Result()
+    if "fold" in case:
+        from . import c04
+        src = c04.build_source(case["fold"])[0]
+        compare(ctx, res, src.encode(), ["-t", cproc.TARGETS[case["fold"]["t"]]], "fold-table unit")
+        res.labels.append("fold-table")
+        res.sample = {"fold-table": [it["e"] for it in case["fold"]["items"][:3]]}
+        return res
     if "own" in case:
         path = os.path.join(ctx.data["ownqbe"], case["own"])
         compare(ctx, res, None, ["-t", case["t"]], "own source %s" % case["own"], path=path)
@@ -168,16 +179,18 @@ def gen_strategy(ctx):
         exprgen.expr_programs(max_stmts=12, depth=3).map(lambda c: {"kind": "exprs", "src": c["src"]}),
         proggen.programs(max_scenes=3).map(lambda c: {"kind": "structured", "src": c["src"]}),
     )
+    from . import c04
+    consts = c04.const_cases().map(lambda c: {"kind": "const", "src": c04.build_source(c)[0]})
     invalid = st.fixed_dictionaries({"kind": st.just("catalogue"), "i": st.integers(0, len(CATALOGUE) - 1),
                                      "variant": st.sampled_from(["plain", "macro", "marker"])})
     mutant = st.fixed_dictionaries({"kind": st.just("mutant"), "m": mutate_strategy_lite(len(ctx.data["corpus"]))})
-    return st.fixed_dictionaries({"input": st.one_of(valid, invalid, invalid, mutant, mutant), "t": st.integers(0, 2), "E": st.booleans()})
+    return st.fixed_dictionaries({"input": st.one_of(valid, consts, consts, invalid, invalid, mutant, mutant), "t": st.integers(0, 2), "E": st.booleans()})
 
 
 def gen_check(case, ctx):
     res = Result()
     inp = case["input"]
-    if inp["kind"] in ("exprs", "structured"):
+    if inp["kind"] in ("exprs", "structured", "const"):
         data = inp["src"].encode()
     elif inp["kind"] == "catalogue":
         from . import c10
